@@ -220,7 +220,8 @@ func judgeCaller(c Case, i int, out Outcome, single bool, v *harness.Verdict) {
 		v.Class("ctx:cancelled-before-call")
 	}
 	// the fixed jitter, plus the time the harness's own slow log sink takes per message
-	slack := jitter + time.Duration(c.LogDelayMs)*time.Millisecond
+	logDelay := time.Duration(c.LogDelayMs) * time.Millisecond
+	slack := jitter + logDelay // the client reads the shared back-off only after its (slow) log call: answers that arrive meanwhile count
 	hasEnd := cc.Ctx != "none"
 	var tEnd time.Duration
 	if hasEnd {
@@ -281,7 +282,7 @@ func judgeCaller(c Case, i int, out Outcome, single bool, v *harness.Verdict) {
 				for _, x := range out.Attempts[j] {
 					ex := c.Callers[j].Script[x.Ev]
 					kx := kindOf(x, ex)
-					if x.End > a.End || (kx != "retry" && kx != "converted") || plain408(x, ex, kx) {
+					if x.End > a.End+logDelay || (kx != "retry" && kx != "converted") || plain408(x, ex, kx) {
 						continue
 					}
 					u := x.End + capWait
